@@ -88,6 +88,19 @@ def run_case(c):
     except Exception as ex:
         big["exc"] = type(ex).__name__
     rec["big"] = big
+    # gigaohm history: a second object constructed with r * 2^30, asked once, then updated to r2 * 2^30 - every
+    # admittance is below 10^-8 before and after; effective resistances scale back exactly, betweenness is unchanged
+    giga = {"exc": ""}
+    try:
+        gnet = ResNetwork(np.array(c["r"], dtype=float) * 2.0**30, silence_level=3)
+        n = gnet.N
+        gnet.average_effective_resistance(), gnet.vertex_current_flow_betweenness(0)
+        gnet.update_resistances(np.array(c["r2"], dtype=float) * 2.0**30)
+        giga["er"] = [[enc.num(gnet.effective_resistance(a, b) / 2.0**30) for b in range(n)] for a in range(n)]
+        giga["vcfb"] = [enc.num(gnet.vertex_current_flow_betweenness(a), 10**4) for a in range(n)]
+    except Exception as ex:
+        giga["exc"] = type(ex).__name__
+    rec["giga"] = giga
     # complex impedances: every impedance multiplied by z = 1 + 2i (construct from r, update to r2)
     z = 1 + 2j
     cobs = []
